@@ -665,3 +665,331 @@ func uniqStrings(xs []string) []string {
 	}
 	return out
 }
+
+// ---- C06.cow-discipline: the tree never writes to a node it may share --------------------------------
+//
+// mast's nodes are copy-on-write: a node that was stored or loaded is "shared" (other trees, clones,
+// cursors — and the NodeCache, which hands the very same object out again for the same name) and
+// must be copied (ToMut) before the first write. The rule is an ownership check over the pinned
+// dependency: every store to a field of a *mastNode (or to an element of its Key/Value/Link) writes
+// to a node the function owns — allocated here, the result of ToMut / xcopy / a constructor — or
+// runs where the node is known to be unshared or already dirty.
+
+func init() {
+	register(&Rule{Name: "C06.cow-discipline", Min: 10, Run: c06Cow,
+		Doc: "copy-on-write ownership in the pinned mast: no function writes to a node that may be shared without copying it first"})
+	byProp["C06"] = append(byProp["C06"], "C06.cow-discipline")
+	byProp["C16"] = append(byProp["C16"], "C06.cow-discipline")
+	byProp["C05"] = append(byProp["C05"], "C06.cow-discipline")
+	explain["C05"] += " cow-discipline (shared with C06): the pre-transaction snapshot shares node objects with the live tree through the node cache; a node written in place makes ROLLBACK restore rows of the rolled-back transaction."
+	explain["C06"] += " cow-discipline: with node_cache_entries>0 mast's NodeCache returns the same in-memory node object for the same name, so a write to a shared node (including marking it dirty, which makes the next update skip the copy) corrupts every later reader of that name; each store to a *mastNode in package mast must target a node the function owns (allocation, ToMut, xcopy, constructor result) or be guarded by the node's own dirty/shared flags."
+}
+
+func c06Cow(c *Ctx) {
+	const rule = "C06.cow-discipline"
+	pk := c.P.ByPath[mastPkg]
+	if pk == nil {
+		c.R.Unk(rule, "mast: loaded", "-", "package mast not loaded")
+		return
+	}
+	sp := c.P.SSA.Package(pk.Types)
+	tn, _ := pk.Types.Scope().Lookup("mastNode").(*types.TypeName)
+	if sp == nil || tn == nil {
+		c.R.Unk(rule, "mast: mastNode", "-", "type mastNode not found")
+		return
+	}
+	isNodePtr := func(t types.Type) bool {
+		p, ok := t.(*types.Pointer)
+		return ok && types.Identical(p.Elem(), tn.Type())
+	}
+	// constructors: functions of the package returning *mastNode whose every returned value is owned
+	var owned func(v ssa.Value, depth int) bool
+	fresh := map[*ssa.Function]bool{}
+	var fns []*ssa.Function
+	for fn := range c.P.AllFuncs {
+		if fn.Pkg == sp && len(fn.Blocks) > 0 && fn.Synthetic == "" {
+			fns = append(fns, fn)
+		}
+	}
+	sort.Slice(fns, func(i, j int) bool { return fns[i].String() < fns[j].String() })
+	owned = func(v ssa.Value, depth int) bool {
+		if depth > 6 {
+			return false
+		}
+		switch x := v.(type) {
+		case *ssa.Alloc:
+			return true
+		case *ssa.Call:
+			if f := x.Call.StaticCallee(); f != nil {
+				if f.Name() == "ToMut" || f.Name() == "xcopy" || fresh[f] {
+					return true
+				}
+			}
+		case *ssa.Phi:
+			for _, e := range x.Edges {
+				if e != v && !owned(e, depth+1) {
+					return false
+				}
+			}
+			return true
+		case *ssa.Extract:
+			if cl, ok := x.Tuple.(*ssa.Call); ok {
+				if f := cl.Call.StaticCallee(); f != nil && fresh[f] {
+					return true
+				}
+			}
+		}
+		return false
+	}
+	for round := 0; round < 3; round++ {
+		for _, fn := range fns {
+			res := fn.Signature.Results()
+			if res.Len() == 0 || !isNodePtr(res.At(0).Type()) || fn.Name() == "ToMut" {
+				continue
+			}
+			all := true
+			for _, b := range fn.Blocks {
+				if ret, ok := b.Instrs[len(b.Instrs)-1].(*ssa.Return); ok {
+					rv := an.RetVal(ret, 0)
+					if an.IsNilConst(rv) {
+						continue
+					}
+					if !owned(rv, 0) {
+						all = false
+					}
+				}
+			}
+			if all {
+				fresh[fn] = true
+			}
+		}
+	}
+	// the node a store writes to
+	target := func(addr ssa.Value) ssa.Value {
+		for i := 0; i < 8; i++ {
+			switch x := addr.(type) {
+			case *ssa.FieldAddr:
+				if isNodePtr(x.X.Type()) {
+					return x.X
+				}
+				addr = x.X
+			case *ssa.IndexAddr:
+				addr = x.X
+			case *ssa.UnOp:
+				if x.Op != token.MUL {
+					return nil
+				}
+				addr = x.X
+			default:
+				return nil
+			}
+		}
+		return nil
+	}
+	flagGuard := func(b *ssa.BasicBlock, node ssa.Value) bool {
+		// dominated by "node.dirty" true, or "node.shared" false
+		nk := an.ExprKey(node)
+		for _, blk := range b.Parent().Blocks {
+			iff, ok := blk.Instrs[len(blk.Instrs)-1].(*ssa.If)
+			if !ok {
+				continue
+			}
+			cond, neg := an.StripNot(iff.Cond)
+			f := an.FieldOfLoad(cond)
+			if f == nil || f.Name() != "dirty" && f.Name() != "shared" {
+				continue
+			}
+			ld := cond.(*ssa.UnOp)
+			fa, ok := ld.X.(*ssa.FieldAddr)
+			if !ok || an.ExprKey(fa.X) != nk {
+				continue
+			}
+			want := f.Name() == "dirty"
+			si := 0
+			if want == neg {
+				si = 1
+			}
+			if an.OnlyVia(blk, si, b) {
+				return true
+			}
+		}
+		return false
+	}
+	// static call sites per function of the package (for one-level ownership of parameters)
+	sites := map[*ssa.Function][]ssa.CallInstruction{}
+	for _, fn := range fns {
+		for _, call := range an.Calls(fn) {
+			if cal := call.Common().StaticCallee(); cal != nil && cal.Pkg == sp {
+				sites[cal] = append(sites[cal], call)
+			}
+		}
+		for _, af := range fn.AnonFuncs {
+			for _, call := range an.Calls(af) {
+				if cal := call.Common().StaticCallee(); cal != nil && cal.Pkg == sp {
+					sites[cal] = append(sites[cal], call)
+				}
+			}
+		}
+	}
+	// memOwned: the node is a reload of a location that was assigned an owned node earlier in the block
+	memOwned := func(st *ssa.Store, node ssa.Value) bool {
+		ld, ok := node.(*ssa.UnOp)
+		if !ok || ld.Op != token.MUL {
+			return false
+		}
+		k := an.ExprKey(ld.X)
+		for _, in := range st.Block().Instrs {
+			if in == ssa.Instruction(st) {
+				break
+			}
+			if s2, ok := in.(*ssa.Store); ok && an.ExprKey(s2.Addr) == k && owned(s2.Val, 0) {
+				return true
+			}
+		}
+		return false
+	}
+	// ownedAtCallers: node is a parameter and every static call site passes an owned node
+	ownedAtCallers := func(fn *ssa.Function, node ssa.Value) bool {
+		p, ok := node.(*ssa.Parameter)
+		if !ok {
+			// a closure's free variable bound to a local allocation of the enclosing function
+			if fv, ok := node.(*ssa.FreeVar); ok && fn.Parent() != nil {
+				_ = fv
+			}
+			return false
+		}
+		idx := -1
+		for i, q := range fn.Params {
+			if q == p {
+				idx = i
+			}
+		}
+		cs := sites[fn]
+		if idx < 0 || len(cs) == 0 {
+			return false
+		}
+		for _, call := range cs {
+			args := call.Common().Args
+			if idx >= len(args) {
+				return false
+			}
+			a := args[idx]
+			if owned(a, 0) {
+				continue
+			}
+			// a parameter of the caller that is itself owned at all of its callers (one more level)
+			if pp, ok := a.(*ssa.Parameter); ok {
+				cf := call.Parent()
+				j := -1
+				for i, q := range cf.Params {
+					if q == pp {
+						j = i
+					}
+				}
+				ok2 := j >= 0 && len(sites[cf]) > 0
+				for _, c2 := range sites[cf] {
+					if j >= len(c2.Common().Args) || !owned(c2.Common().Args[j], 0) {
+						ok2 = false
+					}
+				}
+				if ok2 {
+					continue
+				}
+			}
+			return false
+		}
+		return true
+	}
+	type agg struct {
+		fields []string
+		pos    string
+		status string // ok reason, or "" for bad
+	}
+	n := 0
+	for _, fn := range fns {
+		if fn.Name() == "init" {
+			continue
+		}
+		byNode := map[string]*agg{}
+		var order []string
+		for _, b := range fn.Blocks {
+			for _, in := range b.Instrs {
+				st, ok := in.(*ssa.Store)
+				if !ok {
+					continue
+				}
+				node := target(st.Addr)
+				if node == nil {
+					continue
+				}
+				what := "element of Key/Value/Link"
+				if fa, ok := st.Addr.(*ssa.FieldAddr); ok && isNodePtr(fa.X.Type()) {
+					if fv := an.FieldVar(fa.X.Type(), fa.Field); fv != nil {
+						what = fv.Name()
+					}
+				} else if fa, ok := st.Addr.(*ssa.FieldAddr); ok {
+					if fv := an.FieldVar(fa.X.Type(), fa.Field); fv != nil {
+						what = fv.Name()
+					}
+				}
+				fname := "mast." + strings.TrimPrefix(strings.ReplaceAll(fn.String(), mastPkg+".", ""), "mast.")
+				nk := fname + ": writes to " + describeArg(node)
+				reason := ""
+				switch {
+				case owned(node, 0):
+					reason = "owned here (allocation / ToMut / xcopy / constructor)"
+				case memOwned(st, node):
+					reason = "the location was assigned the ToMut copy just before"
+				case flagGuard(b, node):
+					reason = "guarded by the node's own dirty/shared flag"
+				case ownedAtCallers(fn, node):
+					reason = "every caller passes a node it owns"
+				default:
+					if why, ok := cowExceptions[fname+"|"+describeArg(node)]; ok {
+						reason = "confirmed by reading mast v1.2.33: " + why
+					}
+				}
+				a := byNode[nk]
+				if a == nil {
+					a = &agg{pos: c.P.Pos(st.Pos()), status: reason}
+					byNode[nk] = a
+					order = append(order, nk)
+				} else if reason == "" {
+					a.status = ""
+					if a.fields == nil {
+						a.pos = c.P.Pos(st.Pos())
+					}
+				}
+				a.fields = append(a.fields, what)
+			}
+		}
+		for _, nk := range order {
+			a := byNode[nk]
+			n++
+			fs := uniqStrings(sortedCopy(a.fields))
+			if a.status != "" {
+				c.R.OK(rule, nk, a.pos, a.status+" ("+strings.Join(fs, ", ")+")")
+			} else {
+				c.R.Bad(rule, nk, a.pos, "a node that may be shared — a parameter, a loaded or cached node — is written ("+strings.Join(fs, ", ")+") without being copied with ToMut first")
+			}
+		}
+	}
+	if n == 0 {
+		c.R.Unk(rule, "mast: node writes", "-", "no store to a *mastNode found")
+	}
+}
+
+func sortedCopy(xs []string) []string {
+	out := append([]string{}, xs...)
+	sort.Strings(out)
+	return out
+}
+
+// cowExceptions: writes to a node that is not syntactically owned, each confirmed by reading mast v1.2.33.
+var cowExceptions = map[string]string{
+	"mast.(*Mast).savePathForRoot|UnOp": "second loop: every node of the path was made dirty (hence a private copy) by the first loop",
+	"mast.(*mastNode).store|node":        "store runs on the dirty nodes of the tree being flushed (a clean node returns its source); afterwards the node is marked shared",
+	"mast.(*mastNode).store|UnOp":        "same: the child being flushed is a dirty, private node of this tree",
+	"mast.unmarshalNodeWithRegisteredTypes|node": "fills the node loadPersisted has just allocated (via unmarshalNode), not yet visible to anyone",
+	"mast.unmarshalStringNode|node":               "fills the node loadPersisted has just allocated (via unmarshalNode), not yet visible to anyone",
+}
